@@ -306,12 +306,12 @@ func lexUint(handler func(*Lexer, uint64) stateFn) stateFn {
 		for {
 			switch b := l.next(); {
 			case '0' <= b && b <= '9':
-				n := value*10 + uint64(b-'0')
-				if n < value {
+				digit := uint64(b - '0')
+				if value > (math.MaxUint64-digit)/10 { // value*10 + digit would not fit (a wrapped result can be larger than value)
 					l.err = errOverflow
 					return nil
 				}
-				value = n
+				value = value*10 + digit
 			case b == eof:
 				break loop
 			default:
